@@ -44,6 +44,7 @@
 -/
 import Aegean.Generated.C13
 import Aegean.Model.C13
+import Aegean.Model.C13Glue
 import Aegean.Proofs.C13
 
 namespace Aegean.Properties.C13
@@ -121,6 +122,62 @@ theorem islandCurveList_eq (imgH imgW xmin xmax ymin ymax : Nat) (img : Px → O
     islandCurveList imgH imgW xmin xmax ymin ymax img
       = (allPx (xmax - xmin) (ymax - ymin)).map (islandCurve imgH imgW xmin xmax ymin ymax img) := rfl
 
+/-! ### 3a. obligations on the regenerated leaves of estimate_lmfit_parinfo
+
+  `Gen.C13.ampMinPos/ampMaxPos/ampMinNeg/ampMaxNeg` (the four amplitude-bound expressions) and
+  `Gen.C13.summitArgPos/summitArgNeg` (the thresholded quantities of the two summit masks) are
+  re-translated from the source on every run; these theorems break if the source changes meaning
+  (a wrong sign, the other clip level, an allowance for one polarity only) and re-prove under
+  harmless rewrites (reordered terms, renamed locals). -/
+
+set_option linter.unusedSimpArgs false in
+theorem gen_summit_arg_mirror (d r inner outer : ℝ) :
+    (genLeaves : Leaves ℝ).summitArgNeg (-d) r inner outer = -(genLeaves : Leaves ℝ).summitArgPos d r inner outer := by
+  simp only [genLeaves, Gen.C13.summitArgNeg, Gen.C13.summitArgPos, summitArgNegHand, summitArgPosHand]
+  ring
+
+set_option linter.unusedSimpArgs false in
+theorem gen_bounds_negation (amp r inner outer samp : ℝ) (h : amp ≠ 0) :
+    ampBounds genLeaves (-amp) r inner outer samp
+      = (-(ampBounds genLeaves amp r inner outer samp).2, -(ampBounds genLeaves amp r inner outer samp).1) := by
+  rcases lt_or_gt_of_ne h with hneg | hpos
+  · have h1 : (0 : ℝ) < -amp := by linarith
+    have h2 : ¬ ((0 : ℝ) < amp) := by linarith
+    simp only [ampBounds, genLeaves, lt_real, zero_real, h1, h2, decide_true, decide_false, if_true,
+      Bool.false_eq_true, if_false, Gen.C13.ampMinPos, Gen.C13.ampMaxPos, Gen.C13.ampMinNeg, Gen.C13.ampMaxNeg,
+      ampMinPosHand, ampMaxPosHand, ampMinNegHand, ampMaxNegHand, c095, R.real_min, R.real_max, R.real_ofSci,
+      R.real_ofNat, min_def, max_def]
+    norm_num
+    constructor <;> (try split_ifs) <;> linarith
+  · have h1 : ¬ ((0 : ℝ) < -amp) := by linarith
+    simp only [ampBounds, genLeaves, lt_real, zero_real, h1, hpos, decide_true, decide_false, if_true,
+      Bool.false_eq_true, if_false, Gen.C13.ampMinPos, Gen.C13.ampMaxPos, Gen.C13.ampMinNeg, Gen.C13.ampMaxNeg,
+      ampMinPosHand, ampMaxPosHand, ampMinNegHand, ampMaxNegHand, c095, R.real_min, R.real_max, R.real_ofSci,
+      R.real_ofNat, min_def, max_def]
+    norm_num
+    constructor <;> (try split_ifs) <;> linarith
+
+set_option linter.unusedSimpArgs false in
+theorem gen_bounds_pos (amp r inner outer samp : ℝ) (ha : 0 < amp) (hr : 0 < outer * r) :
+    0 < (ampBounds genLeaves amp r inner outer samp).1 := by
+  simp only [ampBounds, genLeaves, lt_real, zero_real, ha, decide_true, if_true, Gen.C13.ampMinPos, ampMinPosHand, c095,
+    R.real_min, R.real_ofSci, R.real_ofNat, min_def]
+  norm_num
+  (try split_ifs) <;> linarith
+
+set_option linter.unusedSimpArgs false in
+theorem gen_bounds_neg_side (amp r inner outer samp : ℝ) (ha : amp < 0) (hr : 0 < outer * r) :
+    (ampBounds genLeaves amp r inner outer samp).2 < 0 := by
+  have h2 : ¬ ((0 : ℝ) < amp) := by linarith
+  simp only [ampBounds, genLeaves, lt_real, zero_real, h2, decide_false, Bool.false_eq_true, if_false, Gen.C13.ampMaxNeg,
+    ampMaxNegHand, c095, R.real_max, R.real_ofSci, R.real_ofNat, max_def]
+  norm_num
+  (try split_ifs) <;> linarith
+
+/-- **gen_leaves_mirror**: the regenerated leaves satisfy what the negation theorems need -/
+theorem gen_leaves_mirror : LeavesMirror (genLeaves : Leaves ℝ) :=
+  ⟨gen_bounds_negation, gen_summit_arg_mirror⟩
+
 /-! ### 3. estimate_lmfit_parinfo -/
 
 /-- **isnegative_negation_partial**: `isnegative` flips under negation — for a non-empty island
@@ -132,10 +189,10 @@ theorem isnegative_negation_partial (I : Island ℝ) (hs : SingleSign I) (hne : 
 /-- **summits_negation_invariant**: once `isnegative` has flipped, the summit mask of the
     negated island (curve > 0.5, data + outer·rms < 0) is the summit mask of the original
     (−curve > 0.5, data − outer·rms > 0) and vice versa, hence the same summits and boxes. -/
-theorem summits_negation_invariant (I : Island ℝ) (neg : Bool) (outer : ℝ) :
-    summitsOfMask (negI I).h (negI I).w (summitMask (!neg) (negI I) outer)
-      = summitsOfMask I.h I.w (summitMask neg I outer) := by
-  rw [summitMask_neg]; rfl
+theorem summits_negation_invariant (I : Island ℝ) (neg : Bool) (P : Params ℝ) (hP : P.leaves = genLeaves) :
+    summitsOfMask (negI I).h (negI I).w (summitMask (!neg) (negI I) P)
+      = summitsOfMask I.h I.w (summitMask neg I P) := by
+  rw [summitMask_neg I neg P (hP ▸ gen_leaves_mirror)]; rfl
 
 /-- per summit: the amplitude negates and the peak pixel stays (first minimum of −x = first maximum of x) -/
 theorem summit_peak_negation (I : Island ℝ) (s : Summit) (neg : Bool) :
@@ -151,25 +208,26 @@ theorem summit_order_negation (I : Island ℝ) (l : List Summit) :
     every non-zero amplitude, every rms, every pair of clip levels and every sampling allowance
     (`max(1.05, 2^(2/b²))` in the code; nothing about its value is needed). -/
 theorem bounds_negation (amp r inner outer samp : ℝ) (h : amp ≠ 0) :
-    ampBounds (-amp) r inner outer samp
-      = (-(ampBounds amp r inner outer samp).2, -(ampBounds amp r inner outer samp).1) :=
-  ampBounds_neg amp r inner outer samp h
+    ampBounds genLeaves (-amp) r inner outer samp
+      = (-(ampBounds genLeaves amp r inner outer samp).2, -(ampBounds genLeaves amp r inner outer samp).1) :=
+  gen_bounds_negation amp r inner outer samp h
 
 /-- **estimate_negation_partial**: for every island whose finite pixels share one strict sign
     (with its curvature negated, see `island_curve_negation`), every rms map, clip levels and
     `max_summits`: the negated island yields the same list of components — same order, same
     positions, flags and vary switches — with amplitudes negated and bounds negated and swapped.
     (Partial: islands with pixels of both signs are excluded; `mixed_sign_not_symmetric`.) -/
-theorem estimate_negation_partial (P : Params ℝ) (I : Island ℝ) (hs : SingleSign I) (hne : finitePx I ≠ []) :
+theorem estimate_negation_partial (P : Params ℝ) (hP : P.leaves = genLeaves) (I : Island ℝ) (hs : SingleSign I)
+    (hne : finitePx I ≠ []) :
     estimate P (negI I) = (estimate P I).map (List.map negC) :=
-  estimate_neg P I hs hne
+  estimate_neg P (hP ▸ gen_leaves_mirror) I hs hne
 
 /-- **flags_negation_invariant_partial**: positions, flags and vary switches are unchanged -/
-theorem flags_negation_invariant_partial (P : Params ℝ) (I : Island ℝ) (hs : SingleSign I)
-    (hne : finitePx I ≠ []) :
+theorem flags_negation_invariant_partial (P : Params ℝ) (hP : P.leaves = genLeaves) (I : Island ℝ)
+    (hs : SingleSign I) (hne : finitePx I ≠ []) :
     (estimate P (negI I)).map (List.map (fun c => (c.xo, c.yo, c.flags, c.vary, c.psfVary)))
       = (estimate P I).map (List.map (fun c => (c.xo, c.yo, c.flags, c.vary, c.psfVary))) := by
-  rw [estimate_neg P I hs hne]
+  rw [estimate_neg P (hP ▸ gen_leaves_mirror) I hs hne]
   cases estimate P I with
   | none => rfl
   | some l => simp [negC, Function.comp_def]
@@ -179,7 +237,7 @@ theorem flags_negation_invariant_partial (P : Params ℝ) (I : Island ℝ) (hs :
     computes for the negated image (island data, curvature map from the 3×3 filters on its
     window, and then every initial value, bound, flag and vary switch) is the mirror image of what
     it computes for the image. -/
-theorem fit_inputs_negation_partial (P : Params ℝ) (imgH imgW xmin xmax ymin ymax : Nat)
+theorem fit_inputs_negation_partial (P : Params ℝ) (hP : P.leaves = genLeaves) (imgH imgW xmin xmax ymin ymax : Nat)
     (img : Px → Option ℝ) (rms samp : Px → ℝ) (mem : Px → Bool)
     (hs : SingleSign (mkIsland imgH imgW xmin xmax ymin ymax img rms samp mem))
     (hne : finitePx (mkIsland imgH imgW xmin xmax ymin ymax img rms samp mem) ≠ []) :
@@ -191,17 +249,17 @@ theorem fit_inputs_negation_partial (P : Params ℝ) (imgH imgW xmin xmax ymin y
     congr 1
     · funext p; simp only [negImg]; split <;> rfl
     · funext p; exact island_curve_negation _ _ _ _ _ _ _ _
-  rw [e]; exact estimate_neg P _ hs hne
+  rw [e]; exact estimate_neg P (hP ▸ gen_leaves_mirror) _ hs hne
 
 /-- a fitted amplitude that stays inside its bounds has the sign of the initial amplitude,
     in particular it is never 0: the hypothesis `polarity_partition` needs -/
 theorem amp_interval_excludes_zero (amp r inner outer samp a : ℝ) (hr : 0 < outer * r) (h0 : amp ≠ 0)
-    (hlo : (ampBounds amp r inner outer samp).1 ≤ a) (hhi : a ≤ (ampBounds amp r inner outer samp).2) :
+    (hlo : (ampBounds genLeaves amp r inner outer samp).1 ≤ a) (hhi : a ≤ (ampBounds genLeaves amp r inner outer samp).2) :
     (0 < amp → 0 < a) ∧ (amp < 0 → a < 0) ∧ a ≠ 0 := by
   rcases lt_or_gt_of_ne h0 with hn | hp
-  · have := ampBounds_neg_side amp r inner outer samp hn hr
+  · have := gen_bounds_neg_side amp r inner outer samp hn hr
     refine ⟨fun h => absurd h (by linarith), fun _ => by linarith, by linarith⟩
-  · have := ampBounds_pos amp r inner outer samp hp hr
+  · have := gen_bounds_pos amp r inner outer samp hp hr
     exact ⟨fun _ => by linarith, fun h => absurd h (by linarith), by linarith⟩
 
 /-! #### the mixed-sign negation witness (evaluated at `Float`, the driver's instance) -/
@@ -212,7 +270,7 @@ def toy : Island Float :=
     data := fun p => if p.1 = 0 then [1.0, 0.5, -0.5, -0.8][p.2]? else none,
     rms := fun _ => 0.1, curve := fun _ => 0, sampling := fun _ => 1.05 }
 
-def toyP : Params Float := { inner := 5.0, outer := 4.0, maxSummits := none }
+def toyP : Params Float := { inner := 5.0, outer := 4.0, maxSummits := none, leaves := genLeaves }
 
 /-- **mixed_sign_not_symmetric**: the island is "positive" in the image *and* in its negative;
     the image yields one component at pixel (0,0) (the +1.0 summit), the negative one component at
@@ -243,10 +301,11 @@ example :
 
 /-! ### 4. objective -/
 
+set_option linter.unusedSimpArgs false in
 /-- **objective_even**: the regenerated `fitting.elliptical_gaussian` is odd in `amp` -/
 theorem objective_even (x y amp xo yo sx sy theta : ℝ) :
     Gen.C13.gauss x y (-amp) xo yo sx sy theta = -Gen.C13.gauss x y amp xo yo sx sy theta := by
-  simp only [Gen.C13.gauss]
+  simp only [Gen.C13.gauss, gaussHand]
   ring
 
 /-- the model of the mirrored parameter set is the negated model, for any number of components -/
